@@ -23,6 +23,7 @@ CONSTANTS GUnit,      \* 1 or 262144
           StemPlans,  \* set of <<nH, nV>>
           MaxGlyphs, MaxSteps,
           LineRuns, CurveRuns,  \* run lengths
+          FarJumps,   \* allow jumps between corners of the coordinate range (deltas up to 2*MaxG)
           Sim
 
 Abs(v) == IF v < 0 THEN -v ELSE v
@@ -79,7 +80,7 @@ Move ==
 
 \* jump to a corner of the coordinate range (the next delta can then be twice the range)
 Far ==
-  /\ Body
+  /\ Body /\ FarJumps
   /\ \E k \in (IF moved THEN {"m", "l"} ELSE {"m"}) : \E fx \in Pick({-MaxG, MaxG}), fy \in Pick({-MaxG, 0, MaxG}) :
        Add(<< <<k, fx, fy>> >>, fx, fy)
   /\ moved' = TRUE
@@ -137,7 +138,9 @@ FlexPair ==
                  ELSE <<n(7), 0, n(8), dy5, n(9), -(dy1 + dy2 + dy5)>>
            r1 == Abscurve(x, y, d1)
            r2 == Abscurve(r1.px, r1.py, d2)
-       IN /\ r1.ok /\ r2.ok /\ Add(<<r1.cmd, r2.cmd>>, r2.px, r2.py)
+       IN /\ r1.ok /\ r2.ok
+          /\ FarJumps \/ Abs(dy1 + dy2 + dy5) \div GUnit < 32767   \* the closing delta is a sum of three
+          /\ Add(<<r1.cmd, r2.cmd>>, r2.px, r2.py)
   /\ UNCHANGED moved
 
 \* runs of k segments that cross the operand-stack limit (48 operands = 24 lines, 8 curves, ...)
